@@ -1063,7 +1063,7 @@ class _Replace(Array):
                 raise ValueError(f'replacement functions cannot be bound to a space, but replacement for Argument {old.name!r} is bound to {", ".join(new.spaces)}.')
             self._replacements[old.name] = new
         # Build arguments map with replacements.
-        unreplaced = {name: shape_dtype for name, shape_dtype in arg.arguments.items() if name not in replacements}
+        unreplaced = {name: shape_dtype for name, shape_dtype in arg.arguments.items() if name not in self._replacements}
         arguments = _join_arguments([unreplaced] + [replacement.arguments for replacement in self._replacements.values()])
         super().__init__(arg.shape, arg.dtype, arg.spaces, arguments)
 
